@@ -42,7 +42,7 @@ func init() {
 			js = append(js, J("socket", "VX_C05_RawSizeIndependent", 1, 2), J("socket", "VX_C05_RawSizeIndependent", 3, 0))
 			js = append(js, J("socket", "VX_C05_ReusedMessage", 1), J("socket", "VX_C20_Args", 2, -1, 3), J("proto/jsonproto", "VX_C05_JSONRetained", 1), J("socket", "VX_C05_RawRetained", 1), J("proto/thriftproto", "VX_C05_ThriftRetained", 1),
 				J("socket", "VX_C05_RawLongFields", 256, 10), J("socket", "VX_C05_RawLongFields", 10, 256), J("socket", "VX_C05_RawLongFields", 255, 255), J("socket", "VX_C05_RawLongFields", 300, 700), J("socket", "VX_C05_RawLongFields", 0, 65000),
-				J("proto/httproto", "VX_C05_HTTPGzipStream", 100))
+				J("proto/httproto", "VX_C05_HTTPGzipStream", 100), J("proto/thriftproto", "VX_C05_ThriftPipeSeq", 60))
 			// thrift binary protocol (apache thrift THeader transport/protocol interpreted)
 			for g := 0; g <= 3; g++ {
 				js = append(js, J("proto/thriftproto", "VX_C05_ThriftBinary", g, 2))
@@ -99,7 +99,8 @@ func init() {
 				js = append(js, J(".", "VX_C06_PoolAfterOversize", n+1))
 			}
 			js = append(js, J("proto/thriftproto", "VX_C06_ThriftOversize", 8192, 12000))
-			js = append(js, J(".", "VX_C06_SessionFieldBytes", 3, 1), J(".", "VX_C06_SessionFieldBytes", 4, 1), J(".", "VX_C03_Frame", 9, 0, 0, 0, 0, 0, 1, 0))
+			js = append(js, J(".", "VX_C06_SessionFieldBytes", 3, 1), J(".", "VX_C06_SessionFieldBytes", 4, 1), J(".", "VX_C03_Frame", 9, 0, 0, 0, 0, 0, 1, 0),
+				J(".", "VX_C02_DuplicateReply", 1, 1), J(".", "VX_C02_DuplicateReply", 4, 1), J(".", "VX_C02_ReplyThenLoss", 0, 1, 0), J(".", "VX_C02_ReplyThenLoss", 0, 4, 0))
 			js = append(js, J(".", "VX_C06_SessionFieldBytes", 0, 3), J(".", "VX_C06_SessionFieldBytes", 1, 2), J(".", "VX_C06_SessionFieldBytes", 2, 2))
 			if tier == "thorough" {
 				js = append(js, J(".", "VX_C06_SessionFieldBytes", 1, 3), J(".", "VX_C06_SessionFieldBytes", 2, 3))
@@ -123,7 +124,7 @@ func init() {
 				J("socket", "VX_C12_PipeOnWire", 1, 1), J("socket", "VX_C12_PipeOnWire", 2, 1), J("socket", "VX_C12_Unregistered"), J("socket", "VX_C12_TooLong"),
 				J("socket", "VX_C12_PipeLengthOnWire", 255, 1), J("socket", "VX_C12_PipeLengthOnWire", 254, 1), J("socket", "VX_C12_PipeLengthOnWire", 128, 2), J("socket", "VX_C12_PipeLengthOnWire", 127, 1),
 				J("xfer/gzip", "VX_C12_GzipPipe", 0, 300), J("xfer/gzip", "VX_C12_GzipPipe", 1, 300), J("xfer/gzip", "VX_C12_GzipPipe", 2, 64), J("xfer/gzip", "VX_C12_GzipPipe", 3, 300),
-				J("xfer/md5", "VX_C12_MD5Pipe", 1, 1), J("xfer/md5", "VX_C12_MD5Pipe", 2, 0), J("xfer/md5", "VX_C12_MD5Pipe", 2, 1),
+				J("xfer/md5", "VX_C12_MD5Pipe", 1, 1), J("xfer/md5", "VX_C12_MD5Pipe", 2, 0), J("xfer/md5", "VX_C12_MD5Pipe", 2, 1), J("xfer/md5", "VX_C12_MD5Sequence", 2),
 				// a reply (also an error reply) goes through the caller's pipe: [C12]-tagged assertion of the frame harness
 				J(".", "VX_C03_Frame", 1, 0, 0, 0, 0, 0, 1, 1), J(".", "VX_C03_Frame", 1, 1, 0, 0, 0, 0, 1, 1), J(".", "VX_C03_Frame", 1, 2, 0, 0, 0, 0, 0, 1), J(".", "VX_C03_Frame", 1, 0, 0, 1, 0, 0, 1, 1), J(".", "VX_C03_Frame", 1, 0, 0, 2, 0, 0, 1, 1), J(".", "VX_C03_Frame", 1, 0, 0, 0, 2, 0, 1, 1)}
 			for _, a := range [][]int{{2, 0}, {2, 1}, {1, 2}, {2, 3}, {0, 2}, {0, 0}} {
@@ -146,7 +147,7 @@ func init() {
 		jobs: func(tier string) []job {
 			js := []job{
 				J("socket", "VX_C20_Message", 1, 1, 0, 1), J("socket", "VX_C20_Message", 1, 1, 1, 1), J("socket", "VX_C20_Message", 1, 1, 2, 0), J("socket", "VX_C20_Message", 1, 1, 3, 1),
-				J("socket", "VX_C20_Args", 1, 1, 1), J("socket", "VX_C20_Args", 2, 1, 1), J("socket", "VX_C20_XferPipe", 2), J("socket", "VX_C20_ByteBuffer", 2, 1),
+				J("socket", "VX_C20_Args", 1, 1, 1), J("socket", "VX_C20_Args", 2, 1, 1), J("socket", "VX_C20_XferPipe", 2), J("socket", "VX_C20_ByteBuffer", 2, 1), J("socket", "VX_C20_GetMessagePanic", 1, 0), J("socket", "VX_C20_GetMessagePanic", 1, 1),
 				J(".", "VX_C20_ContextReuse", 0, 1), J(".", "VX_C20_ContextReuse", 1, 1), J(".", "VX_C20_ContextReuse", 2, 0),
 				J(".", "VX_C20_PreSessionPools", 0, 0), J(".", "VX_C20_PreSessionPools", 0, 1), J(".", "VX_C20_PreSessionPools", 1, 0), J(".", "VX_C20_PreSessionPools", 1, 1), J(".", "VX_C20_PreSessionPools", 2, 0), J(".", "VX_C20_PreSessionPools", 2, 1),
 				J("socket", "VX_C20_Socket", 2, 1), J("socket", "VX_C20_Socket", 1, 0), J("socket", "VX_C20_Socket", 2, 1, 1), J("socket", "VX_C20_Socket", 1, 0, 1),
@@ -194,6 +195,11 @@ func init() {
 				js = append(js, J(".", "VX_C03_HookPanic", st))
 			}
 			js = append(js, historyJobs(tier, false)...)
+			if tier == "thorough" {
+				js = append(js, J(".", "VX_Session_History", 4, -1, 0, 1)) // with stray replies and unsupported-type frames
+			} else {
+				js = append(js, J(".", "VX_Session_History", 3, -1, 0, 1))
+			}
 			js = append(js, J(".", "VX_C03_CancelledQueuedWrite", 0))
 			// vetoes of the reply-side hooks; panics whose value is a *Status
 			js = append(js, J(".", "VX_C03_Frame", 1, 0, 0, 0, 4, 0, 1, 0), J(".", "VX_C03_Frame", 1, 0, 0, 0, 5, 0, 1, 0), J(".", "VX_C03_Frame", 1, 0, 0, 5, 0, 0, 1, 0), J(".", "VX_C03_Frame", 1, 0, 0, 6, 0, 0, 1, 0))
@@ -264,6 +270,11 @@ func init() {
 				J(".", "VX_C08_CloseHandlerNeedsTraffic", 0), J(".", "VX_C08_CloseHandlerNeedsTraffic", 1), J(".", "VX_C07_CloseWaitsThenLoss", 0),
 				J(".", "VX_C08_OverlappingClose", 0), J(".", "VX_C08_OverlappingClose", 1), J(".", "VX_C08_OverlappingClose", 2)}
 			js = append(js, historyJobs(tier, true)...)
+			// the parked handler ends with an error status / a panic
+			js = append(js, J(".", "VX_Session_History", 3, -1, 1), J(".", "VX_Session_History", 3, -1, 2))
+			if tier == "thorough" {
+				js = append(js, J(".", "VX_Session_History", 5, -1, 1), J(".", "VX_Session_History", 5, -1, 2))
+			}
 			if tier == "thorough" {
 				js = append(js, J(".", "VX_C08_GracefulClose", 0, 3), J(".", "VX_C08_GracefulClose", 1, 3), J(".", "VX_C08_GracefulClose", 2, 0))
 			}
@@ -284,7 +295,7 @@ func init() {
 				J(".", "VX_C01_ConcurrentCalls", 1, 1),
 				J(".", "VX_C01_MetaAcrossRequests", 0, 1), J(".", "VX_C01_MetaAcrossRequests", 1, 1), J(".", "VX_C01_MetaAcrossRequests", 0, 1, 1), J(".", "VX_C01_MetaAcrossRequests", 1, 2, 1), J(".", "VX_C10_RealRoutes", 1),
 				J(".", "VX_C01_CtrlOverlap", 1, 1), J(".", "VX_C01_CtrlOverlap", 0, 1),
-				J(".", "VX_C01_TwoSessionsSameSeq", 0, 1), J(".", "VX_C01_TwoSessionsSameSeq", 1, 1),
+				J(".", "VX_C01_TwoSessionsSameSeq", 0, 1), J(".", "VX_C01_TwoSessionsSameSeq", 1, 1), J(".", "VX_C01_SeqAcrossRedial", 2), J(".", "VX_C01_SeqAcrossRedial", 3),
 			}
 			js = append(js, msgSeqJobs(tier)...)
 			if tier == "thorough" {
@@ -332,6 +343,7 @@ func init() {
 			js = append(js, J("plugin/proxy", "VX_C19_ProxyPush", a...))
 		}
 		js = append(js, J("plugin/proxy", "VX_C19_Sequence", 3))
+		js = append(js, J("plugin/proxy", "VX_C19_BackendLoss", 0, 0), J("plugin/proxy", "VX_C19_BackendLoss", 1, 0), J("plugin/proxy", "VX_C19_BackendLoss", 0, 1), J("plugin/proxy", "VX_C19_BackendLoss", 1, 1))
 		if tier == "thorough" {
 			js = append(js, J("plugin/proxy", "VX_C19_Sequence", 4))
 			js = append(js, J("plugin/proxy", "VX_C19_ProxyCall", 0, 0, 3, 1, 1), J("plugin/proxy", "VX_C19_ProxyCall", 1, 1, 2, 1, 1), J("plugin/proxy", "VX_C19_ProxyPush", 0, 0, 3))
@@ -345,7 +357,7 @@ func init() {
 		bounds:      "body <= 3 bytes, one extra metadata pair each way, status code any int32, backend OK / error / closed; also: reply bodies shorter/longer than the request incl. empty, sequences of 3 (quick) / 4 (thorough) proxied calls with solver-chosen backend outcomes",
 	})
 	registerCheck(&checkSpec{
-		id: "C15", dirs: []string{".", "plugin/proxy"}, level: "other",
+		id: "C15", dirs: []string{".", "plugin/proxy", "proto/httproto"}, level: "other",
 		jobs: func(tier string) []job {
 			js := []job{J(".", "VX_C02_Replies", 1, 1, 0, 2, 0, 9, 0), J(".", "VX_C02_Replies", 1, 1, 0, 2, 0, 3, 0), J(".", "VX_C02_Replies", 0, 1, 1, 1, 0, 0, 0), J(".", "VX_C02_CloseThenLoss", 0),
 				J(".", "VX_C03_Frame", 1, 1, 0, 0, 0, 0, 1, 0), J(".", "VX_C03_Frame", 1, 0, 0, 2, 0, 0, 1, 0), J(".", "VX_C03_Frame", 1, 0, 0, 3, 0, 2, 1, 0), J(".", "VX_C03_Frame", 9, 0, 0, 0, 0, 0, 1, 0), J(".", "VX_C03_Frame", 1, 2, 0, 0, 0, 1, 1, 0)}
@@ -353,7 +365,7 @@ func init() {
 			js = append(js, J(".", "VX_C03_Frame", 1, 1, 0, 0, 0, 2, 1, 0), J(".", "VX_C03_Frame", 1, 2, 0, 0, 0, 2, 1, 0), J(".", "VX_C03_Frame", 1, 0, 0, 2, 0, 2, 1, 0), J(".", "VX_C03_Frame", 1, 0, 0, 1, 0, 2, 1, 0), J(".", "VX_C03_Frame", 1, 0, 0, 0, 2, 2, 1, 0), J(".", "VX_C03_Frame", 1, 1, 0, 0, 0, 1, 1, 0))
 			js = append(js, c19jobs("quick")...)
 			js = append(js, msgSeqJobs(tier)...)
-			js = append(js, J(".", "VX_C15_WriteFailedCauses", 0), J(".", "VX_C15_WriteFailedCauses", 1))
+			js = append(js, J(".", "VX_C15_WriteFailedCauses", 0), J(".", "VX_C15_WriteFailedCauses", 1), J("proto/httproto", "VX_C15_HTTPStrayReply", 0))
 			if tier == "thorough" {
 				js = append(js, c02jobs("thorough")...)
 			}
@@ -444,11 +456,12 @@ func init() {
 		bounds:      "identifiers <= 3 (quick) / 6 (thorough) bytes, 3 registrations, requested name length within +-1 of a registered name; also: one struct controller (3 methods), one function handler and one push controller through the real reflection builders; push registration under an early sub-router; unknown-handler (re)installed after a session exists",
 	})
 	registerCheck(&checkSpec{
-		id: "C16", dirs: []string{"plugin/auth"}, level: "other",
+		id: "C16", dirs: []string{"plugin/auth", "."}, level: "other",
 		jobs: func(tier string) []job {
 			var js []job
 			add := func(a ...int) { js = append(js, J("plugin/auth", "VX_C16_Auth", a...)) }
 			// first, nBytes, pipelined, otherPluginAfter[, setID]
+			js = append(js, J(".", "VX_C16_ListenerOncePerConn", 2, 0), J(".", "VX_C16_ListenerOncePerConn", 2, 1), J(".", "VX_C16_ListenerOncePerConn", 3, -1))
 			add(0, 0, 1, 1)
 			add(0, 0, 1, 0)
 			add(1, 0, 1, 1)
@@ -525,7 +538,7 @@ func init() {
 				J("plugin/secure", "VX_C17_Call", 1, 0, 0, 1, 1), J("plugin/secure", "VX_C17_Call", 0, 1, 0, 1, 1), J("plugin/secure", "VX_C17_Call", 0, 1, 0, 1, 0), J("plugin/secure", "VX_C17_Call", 1, 1, 1, 1, 1),
 				J("plugin/secure", "VX_C17_Call", 1, 0, 1, 1, 0, 1), J("plugin/secure", "VX_C17_Call", 0, 1, 1, 1, 0, 1), J("plugin/secure", "VX_C17_Call", 1, 1, 1, 1, 1, 1),
 				J("plugin/secure", "VX_C17_Push", 1, 0, 1, 1), J("plugin/secure", "VX_C17_Push", 1, 1, 1, 1),
-				J("plugin/secure", "VX_C17_Sequence", 1, 1, 1), J("plugin/secure", "VX_C17_Sequence", 0, 1, 1), J("plugin/secure", "VX_C17_Sequence", 1, 0, 1), J("plugin/secure", "VX_C17_Sequence", 0, 0, 1))
+				J("plugin/secure", "VX_C17_Sequence", 1, 1, 1), J("plugin/secure", "VX_C17_Sequence", 0, 1, 1), J("plugin/secure", "VX_C17_Sequence", 1, 0, 1), J("plugin/secure", "VX_C17_Sequence", 0, 0, 1), J("plugin/secure", "VX_C17_TypedArgMismatch", 0), J("plugin/secure", "VX_C17_TypedArgMismatch", 1))
 			if tier == "thorough" {
 				js = append(js, J("plugin/secure", "VX_C17_Call", 1, 0, 1, 3), J("plugin/secure", "VX_C17_Call", 1, 1, 0, 3), J("plugin/secure", "VX_C17_Push", 1, 1, 3), J("plugin/secure", "VX_C17_PushRedial", 0, 3))
 			}
@@ -575,7 +588,7 @@ func init() {
 			}
 			js = append(js, J(".", "VX_C14_Races", 0, 1), J(".", "VX_C14_Races", 4, 1))
 			js = append(js, J(".", "VX_C14_DisconnectWhileLaunching", 0), J(".", "VX_C14_DisconnectWhileLaunching", 1), J(".", "VX_C14_DisconnectWhileLaunching", 0, 1))
-			js = append(js, J(".", "VX_C14_Races", 7, 0), J(".", "VX_C14_Races", 8, 0), J(".", "VX_C14_Races", 7, 1), J(".", "VX_C14_Races", 8, 1), J(".", "VX_C14_Races", 9, 0), J(".", "VX_C14_Races", 10, 0), J(".", "VX_C14_Races", 11, 0), J(".", "VX_C14_Races", 12, 0))
+			js = append(js, J(".", "VX_C14_Races", 7, 0), J(".", "VX_C14_Races", 8, 0), J(".", "VX_C14_Races", 7, 1), J(".", "VX_C14_Races", 8, 1), J(".", "VX_C14_Races", 9, 0), J(".", "VX_C14_Races", 10, 0), J(".", "VX_C14_Races", 11, 0), J(".", "VX_C14_Races", 12, 0), J(".", "VX_C14_Races", 13, 0))
 			if tier == "thorough" {
 				for sc := 1; sc <= 6; sc++ {
 					js = append(js, J(".", "VX_C14_Races", sc, 1))
